@@ -17,7 +17,8 @@ The reply for each query comes from a JSON script whose path is in the environme
                  ... reply fields ... } ] }    # first matching rule wins; all match keys are optional (conjunction)
 
 Reply fields:
-    "reply":  "sat" | "sat_abstract" | "unsat" | "unknown" | "timeout" | "garbage" | "empty" | "exit" | "real"
+    "reply":  "sat" | "sat_abstract" | "unsat" | "unknown" | "timeout" | "garbage" | "empty" | "exit" | "binary" | "real"
+              ("binary": bytes that are not valid UTF-8 -> halmos' text-mode `communicate` raises UnicodeDecodeError)
     "model":  {"p_x_uint256": 42, ...}   for sat*: value per declared variable; keys match a declared name exactly or as
               a prefix (halmos appends _<uid>_<nn>); undeclared keys are emitted too if "emit_undeclared" is true;
               every declared p_*/halmos_* variable without a value gets 0.
@@ -28,6 +29,7 @@ Reply fields:
     "delay_ms": sleep before replying;   "after": ["check_a/1", "check_a/2.refined"]: first wait until those queries
               have completed (their completion markers exist in "dir"), then sleep delay_ms — this fixes the completion
               ORDER independently of process start-up jitter; "after_timeout_s" (default 20) bounds that wait.
+    "ignore_sigterm": true — the stub ignores SIGTERM (halmos then SIGKILLs it after its 0.5 s grace period)
     "sleep_s": for "timeout": how long to hang (default 3600; halmos kills the process at its own timeout)
     "real":   command list for reply "real" (default ["z3"]): exec the real solver on the file.
 
@@ -153,6 +155,8 @@ def render(rule, text):
     elif kind == "exit":
         rc = 1
         err = "stub: fatal error\n"
+    elif kind == "binary":
+        out = ""
     else:
         out, err, rc = f"stub: unknown reply kind {kind}\n", "bad script\n", 3
     if "stdout" in rule:
@@ -218,6 +222,10 @@ def main(argv):
         _log(d, {"ev": "exec", "q": qid, "t": time.time()})
         os.execvp(cmd[0], cmd)
 
+    if rule.get("ignore_sigterm"):
+        import signal
+        signal.signal(signal.SIGTERM, signal.SIG_IGN)
+
     waited_ok = True
     if d and rule.get("after"):
         deadline = time.time() + float(rule.get("after_timeout_s", 20))
@@ -240,6 +248,8 @@ def main(argv):
         except OSError:
             pass
     _log(d, {"ev": "done", "q": qid, "t": time.time(), "rc": rc, "first": out.split("\n", 1)[0], "waited_ok": waited_ok})
+    if rule.get("reply") == "binary" and "stdout" not in rule:
+        os.write(1, b"\xff\xfe\x00\x80sat\n")
     sys.stdout.write(out)
     sys.stdout.flush()
     if err:
